@@ -19,6 +19,14 @@ Require Import Selen.Model.Props.Logic Selen.Model.Props.Global Selen.Model.Gac 
 Require Import Selen.Model.Api Selen.Model.Lower.
 Require Selen.Generated.Consts.
 
+(* functions::element on an empty array creates its value handle with model.int(-1000, 1000)
+   (constraints/functions.rs); before the repair b9ad7d3 every value handle of functions::element had
+   this domain.  (These three definitions used to live in Model/Lower.v as the placeholder bounds of
+   the fluent API's auxiliary variables, which now have computed bounds: Lower.ebounds.) *)
+Definition aux_lo : Z := Selen.Generated.Consts.felement_empty_lo.
+Definition aux_hi : Z := Selen.Generated.Consts.felement_empty_hi.
+Definition in_aux (x : Z) : bool := (aux_lo <=? x) && (x <=? aux_hi).
+
 (* an `impl View` argument in the integer fragment: a variable handle or a Val::ValI constant *)
 Inductive opnd := OV (v : nat) | OC (c : Z).
 Inductive ckind := KAtLeast | KAtMost | KExactly.
